@@ -10,7 +10,7 @@ use std::collections::BTreeMap;
 
 /// documents for this check: numeric arguments are JSON numbers (or null / bool / words / missing),
 /// never digit-bearing strings — string→number coercion is C08's subject
-fn doc(r: &mut Rng, obj_keys: bool) -> String {
+pub fn doc(r: &mut Rng, obj_keys: bool) -> String {
     let mut m: Vec<String> = vec![];
     if r.chance(90) {
         let v = match r.below(10) {
